@@ -218,8 +218,15 @@ def suite_odc_cartopy(ctx):
             w, h = r.randrange(1, 12), r.randrange(1, 12)
             px, py = (0.25, 0.5) if cname == "geographic" else (r.choice([1000.0, 2500.0, 3000.403165817]), r.choice([500.0, 3000.403165817]))
             x0, y0 = ox + r.randrange(-20, 20) * px, oy + r.randrange(-20, 20) * py
-            area = _mk(proj, w, h, (x0, y0, x0 + w * px, y0 + h * py))
-            inp = {"crs": cname, "extent": [float(v) for v in area.area_extent], "shape": [h, w]}
+            orient = r.choice(["north-up", "north-up", "rows-flipped", "columns-flipped", "both-flipped"])
+            ext = [x0, y0, x0 + w * px, y0 + h * py]
+            if orient in ("rows-flipped", "both-flipped"):
+                ext[1], ext[3] = ext[3], ext[1]
+            if orient in ("columns-flipped", "both-flipped"):
+                ext[0], ext[2] = ext[2], ext[0]
+            area = _mk(proj, w, h, tuple(ext))
+            inp = {"crs": cname, "extent": [float(v) for v in area.area_extent], "shape": [h, w], "orientation": orient}
+            ctx.count("odc.orientation." + orient)
             scale = max(1.0, float(np.max(np.abs(area.area_extent))))
             try:
                 with warnings.catch_warnings():
@@ -248,7 +255,7 @@ def suite_odc_cartopy(ctx):
                     ctx.fail("AreaDefinition.to_cartopy_crs", "bounds are not (xmin, xmax, ymin, ymax) of the extent", inp, list(cc.bounds), size=5)
             except Exception as ex:  # noqa
                 ctx.fail("AreaDefinition.to_cartopy_crs", f"raised {type(ex).__name__}: {str(ex)[:150]}", inp, size=5)
-            ctx.case("odc_cartopy", (cname, x0, y0, w, h), nontrivial=w == 1 or h == 1 or cname == "geos", sample={"input": inp})
+            ctx.case("odc_cartopy", (cname, x0, y0, w, h, orient), nontrivial=w == 1 or h == 1 or cname == "geos" or orient != "north-up", sample={"input": inp})
 
 
 def run(ctx):
